@@ -278,7 +278,7 @@ impl Property for C09 {
     type Case = Case;
     const ID: &'static str = "C09";
     fn cases(tier: Tier) -> u64 {
-        tier.pick(40_000, 3_000_000)
+        tier.pick(200_000, 4_000_000)
     }
     fn strategy(tier: Tier) -> BoxedStrategy<Case> {
         let n = tier.pick(80usize, 160usize);
